@@ -11,10 +11,12 @@ func register(p *mon.Prop) { All[p.ID] = p }
 func releaseOnly(string) []string { return []string{"release"} }
 
 // releaseThenGo126 runs the release flavour and, in the thorough tier, repeats the identical case
-// list in a binary built with the second toolchain (go1.26.8): results must not depend on the compiler.
+// list in a binary built with the second toolchain (go1.26.8) and in a GOARCH=386 binary (32-bit int
+// and pointers; runs directly on the amd64 kernel): results must not depend on the compiler or on the
+// width of int.
 func releaseThenGo126(tier string) []string {
 	if tier == "thorough" {
-		return []string{"release", "go126"}
+		return []string{"release", "go126", "386"}
 	}
 	return []string{"release"}
 }
